@@ -1568,6 +1568,7 @@ def conf_history(seed, rounds=12):
     bad = [b"directories.tokendir =", b"directories.tokendir = /nonexistent/dir", b"directories.tokendir = /etc/passwd", b"directories.tokendir = " + b"a" * 5000, b"objectstore.backend = db",
            b"objectstore.backend = ", b"objectstore.backend = \xff\xfe", b"log.level = ", b"log.level = NONSENSE", b"log.level = DEBUG", b"slots.removable = maybe", b"slots.removable = true",
            b"slots.mechanisms = ", b"slots.mechanisms = -", b"slots.mechanisms = CKM_RSA_PKCS,,,CKM_NOPE", b"slots.mechanisms = -" + b"CKM_AES_CBC," * 400, b"slots.mechanisms = -ALL", b"slots.mechanisms = CKM_SHA256",
+           b"slots.mechanisms = -CKM_MD5,CKM_MD5,CKM_MD5", b"slots.mechanisms = CKM_SHA256,CKM_SHA256,CKM_AES_CBC,CKM_SHA256", b"slots.mechanisms = -CKM_NOPE,CKM_MD5,,CKM_MD5",
            b"library.reset_on_fork = 7", b"objectstore.umask = 99999999999999999999", b"objectstore.umask = -1", b"objectstore.umask = 0x", b"objectstore.umask = 0777", b"=", b"= =", b"a", b"a=", b"=b", b"a.b.c.d = e",
            b"#", b"# comment = x", b"\x00", b"\x00\x00=\x00", b"directories.tokendir\x00 = x", b"[section]", b"key = value = other", b"   ", b"\t=\t", b"directories.tokendir=@TOKENDIR@",
            b"DIRECTORIES.TOKENDIR = @TOKENDIR@", b"directories.tokendir = @TOKENDIR@/", b"directories.tokendir = @TOKENDIR@/../tokens", b"directories.tokendir : @TOKENDIR@", b"x" * 70000, b"k = " + b"v" * 70000,
@@ -1591,7 +1592,7 @@ def conf_history(seed, rounds=12):
         h.op(f"findinit @{s}"); h.op(f"find @{s} 100"); h.op(f"findfinal @{s}")
         h.op(f"diginit @{s} 250"); h.op(f"digest @{s} 616263 64")
         h.op(f"genkey @{s} 1080 161={ul(16)} 3={hx(h.new_label())}")
-        h.op("mechlist 0"); h.op("mechinfo 0 1082")
+        h.op(f"mechlist t:{hx(t.label)}"); h.op(f"mechinfo t:{hx(t.label)} 1082")
         if rng.random() < 0.3: h.op(f"inittoken free {hx(t.so)} {hx('other')}")
         h.op("fini")
     return h.text()
@@ -1759,6 +1760,8 @@ def thread_scenarios():
         "read-private": (True, ["getattr {S0} {Z} 3:64 11:64"]),          # decrypts with the token's one shared cipher object
         # C06 under threads: the value of a PRIVATE key being stored while another thread logs the token out must not reach the disk in the clear
         "unwrap-private": (True, [f"unwrap {{S0}} 2109 {{W}} blob:{{WB}} 0={U(4)} 100={U(0x1f)} 1=01 2=01 162=01 103=00"]),      # no byte string in the template: the key value is the only thing C_UnwrapKey has to encrypt
+        # two searches meet token objects that have NO handle yet in this process (after C_CloseAllSessions): each object must end up with one handle
+        "find-fresh": (True, ["findinit {S0}", "find {S0} 100", "findfinal {S0}"]),
         "login-so": (True, ["logout {S0}", f"login {{S0}} 0 {so}", "sinfo {S0}", "logout {S0}"]),         # check-then-act inside Token::loginSO / C_Login; ends logged out (the closing inventory logs in as the user)
     }
     B = {   # name -> (uses S1 from the prologue?, [calls of thread 1 …])
@@ -1773,6 +1776,7 @@ def thread_scenarios():
         "session-object": (True, [f"create {{S1}} 0={U(0)} 1=00 2=01 3={hx('newB')} 11=b2b2", "destroy {S1} @{B0}"]),
         "read-private": (True, ["getattr {S1} {Z} 3:64 11:64"]),
         "open-find-close": (False, [f"open t:{lab} 6", "findinit @{B0}", "find @{B0} 100", "findfinal @{B0}", "close @{B0}"]),     # a search registers handles; closing the searching session must not take another session's object along
+        "find-only": (True, ["findinit {S1}", "find {S1} 100", "findfinal {S1}"]),
         "login-user": (True, [f"login {{S1}} 1 {user}", "sinfo {S1}"]),
         "login-so": (True, [f"login {{S1}} 0 {so}", "sinfo {S1}", "logout {S1}"]),
     }
@@ -1781,6 +1785,7 @@ def thread_scenarios():
             if usesS1 and not needS1: continue
             if bn in ("login-user", "login-so") and an not in ("login", "login-so", "logout", "open", "close"): continue
             if an == "unwrap-private" and bn not in ("logout", "close", "find-read"): continue
+            if (an == "find-fresh") != (bn == "find-only"): continue
             lines = []
             def op(tag, text):
                 lines.append(f"{tag} {text}"); return len(lines)
@@ -1800,6 +1805,11 @@ def thread_scenarios():
             S1 = None
             if needS1 and usesS1: S1 = "@%d" % op("M", f"open t:{lab} 6")
             elif needS1: op("M", f"open t:{lab} 4")          # another session exists, so that A's session is not the last one
+            if an == "find-fresh":
+                # every handle of the token is purged; the two threads work through new sessions
+                op("M", f"closeall t:{lab}")
+                S0 = "@%d" % op("M", f"open t:{lab} 6"); op("M", f"login {S0} 1 {user}")
+                S1 = "@%d" % op("M", f"open t:{lab} 6")
             a0 = len(lines) + (2 if an in ("login", "login-so") else 1)
             for c in acalls: op("T0", c.replace("{S0}", S0).replace("{X}", X).replace("{Z}", Z).replace("{A0}", str(a0)).replace("{WB}", WB).replace("{W}", W))
             b0 = len(lines) + 1
